@@ -200,22 +200,34 @@ static void ptg_dump_events(int64_t cap)
 }
 
 /* ------------------------------------------------------------------ watchdog */
-static int ptg_timeout_ms = 20000;
+static int ptg_timeout_ms = 20000, ptg_init_timeout_ms = 120000;
 static parsec_taskpool_t *ptg_tp; static ptg_initial_fn ptg_ini; static const char *ptg_keyfile;
 static void ptg_probe_keys(parsec_taskpool_t *tp, const char *file);
 static volatile int ptg_done;
+static ptg_initial_fn ptg_inited;
 static void *ptg_watchdog(void *arg)
 {
     (void)arg;
-    for (int i = 0; i < ptg_timeout_ms / 10 && !ptg_done; i++) usleep(10000);
+    /* 1. wait (up to PTG_INIT_TIMEOUT_MS) until every internal_init task has run: only then are the announced count and
+     *    the (min, range) pairs used by make_key / key_print defined.
+     * 2. then declare a hang when no body event has been logged for PTG_TIMEOUT_MS (idle time, robust on a loaded machine). */
+    int waited = 0, idle = 0;
+    int64_t last = -1;
+    while (!ptg_done && !ptg_inited(ptg_tp) && waited < ptg_init_timeout_ms) { usleep(5000); waited += 5; }
+    while (!ptg_done && idle < ptg_timeout_ms) {
+        usleep(10000);
+        int64_t now = ptg_stamp;
+        if (now != last) { last = now; idle = 0; } else idle += 10;
+        if (now >= ptg_log_cap) break;          /* runaway program */
+    }
     if (!ptg_done) {
-        /* the taskpool did not complete: report what can still be observed (internal_init has run long ago:
-         * the announced count and the key functions are meaningful), then the events so far (capped) */
         int64_t n = ptg_stamp, b = 0, e = 0;
         if (n > ptg_log_cap) n = ptg_log_cap;
         for (int64_t i = 0; i < n; i++) { if (ptg_log[i].kind == 'E') e++; else if (ptg_log[i].kind) b++; }
-        fprintf(ptg_out, "count %d %d => %d\n", ptg_rank, ptg_world, ptg_ini(ptg_tp));
-        if (ptg_keyfile) ptg_probe_keys(ptg_tp, ptg_keyfile);
+        if (ptg_inited(ptg_tp)) {
+            fprintf(ptg_out, "count %d %d => %d\n", ptg_rank, ptg_world, ptg_ini(ptg_tp));
+            if (ptg_keyfile) ptg_probe_keys(ptg_tp, ptg_keyfile);
+        } else fprintf(ptg_out, "#not-initialised\n");
         ptg_dump_events(4000);
         fprintf(ptg_out, "end => hang %lld %lld\n", (long long)b, (long long)e);
         fflush(ptg_out);
@@ -251,7 +263,7 @@ static void ptg_probe_keys(parsec_taskpool_t *tp, const char *file)
     fclose(f);
 }
 
-int ptg_rt_main(int argc, char **argv, int nglobals, ptg_make_fn mk, ptg_initial_fn ini, ptg_unmake_fn unmk)
+int ptg_rt_main(int argc, char **argv, int nglobals, ptg_make_fn mk, ptg_initial_fn ini, ptg_initial_fn inited, ptg_unmake_fn unmk)
 {
     int threads = 1, nt = 16, g[16] = {0}, rc;
     const char *keyfile = NULL, *outfile = NULL;
@@ -269,6 +281,7 @@ int ptg_rt_main(int argc, char **argv, int nglobals, ptg_make_fn mk, ptg_initial
     }
     (void)nglobals;
     if (getenv("PTG_TIMEOUT_MS")) ptg_timeout_ms = atoi(getenv("PTG_TIMEOUT_MS"));
+    if (getenv("PTG_INIT_TIMEOUT_MS")) ptg_init_timeout_ms = atoi(getenv("PTG_INIT_TIMEOUT_MS"));
     if (getenv("PTG_BODY") && !strcmp(getenv("PTG_BODY"), "spin")) ptg_body_spin = 1;
 #if defined(PARSEC_HAVE_MPI)
     { int provided; MPI_Init_thread(&argc, &argv, MPI_THREAD_SERIALIZED, &provided);
@@ -293,7 +306,7 @@ int ptg_rt_main(int argc, char **argv, int nglobals, ptg_make_fn mk, ptg_initial
     fprintf(ptg_out, "#ptg rank %d world %d threads %d sched %s startup_iter %zu startup_chunk %zu\n", ptg_rank, ptg_world, threads,
             getenv("PARSEC_MCA_mca_sched") ? getenv("PARSEC_MCA_mca_sched") : "default", parsec_task_startup_iter, parsec_task_startup_chunk);
 
-    ptg_tp = tp; ptg_ini = ini; ptg_keyfile = keyfile;
+    ptg_tp = tp; ptg_ini = ini; ptg_inited = inited; ptg_keyfile = keyfile;
     pthread_t wd; pthread_create(&wd, NULL, ptg_watchdog, NULL);
     rc = parsec_context_add_taskpool(ctx, tp);   PARSEC_CHECK_ERROR(rc, "parsec_context_add_taskpool");
     rc = parsec_context_start(ctx);              PARSEC_CHECK_ERROR(rc, "parsec_context_start");
